@@ -194,6 +194,53 @@ def run(ctx):
                     ru_.violate("display_span: inner line #%d" % n_inner, "an inner line is used without visualize_ws_and_cntrl", c.loc(n.get("sp")))
     ru_.require(8, "text sources")
 
+    # one width measure: marker columns (padding before the markers) and marker lengths are display widths of pieces of the same
+    # line — they only line up if every one of them is measured the same way (seed C14-7: `width` for one padding, `width_cjk`
+    # for the markers: off by one cell per East-Asian-ambiguous character before the span)
+    rw = ctx.rule("R14-WIDTH", "every display-width measurement in the snippet writers uses one and the same width function")
+    used = {}
+    for fid, b in g.bodies.items():
+        if not fid.startswith("pest_typed::formatter::"):
+            continue
+        for n in walk(b["value"]):
+            cal = n.get("callee")
+            if cal and "unicode_width::UnicodeWidth" in cal["path"]:
+                used.setdefault(strip_generics(cal["path"]).rsplit("::", 2)[-2] + "::" + strip_generics(cal["path"]).rsplit("::", 1)[-1], []).append((fid, c.loc(n.get("sp"))))
+    if len(used) == 1:
+        for fn, sites_ in used.items():
+            for i, (fid, loc) in enumerate(sorted(sites_)):
+                rw.inst("%s #%d: %s" % (fid.rsplit("::", 1)[-1], i + 1, fn), loc)
+    else:
+        major = max(used, key=lambda k: len(used[k])) if used else None
+        for fn, sites_ in sorted(used.items()):
+            for fid, loc in sites_:
+                if fn != major:
+                    rw.violate("%s: %s" % (fid.rsplit("::", 1)[-1], fn), "measures a width with %s where the other %d measurements use %s: marker columns and "
+                               "marker lengths no longer line up for characters the two functions disagree on" % (fn, len(used[major]), major), loc)
+                else:
+                    rw.inst("%s: %s" % (fid.rsplit("::", 1)[-1], fn), loc)
+    rw.require(5, "width measurements")
+    # which piece is measured: padding = the text before the marked part (`former`), marker length = the marked part (`middle`)
+    rmc = ctx.rule("R14-MARKCOL", "in the snippet writers the padding before a marker is the width of the line's `former` part and a marker "
+                                  "run is as wide as its `middle` part")
+    for fid, b in sorted(g.bodies.items()):
+        if not fid.startswith("pest_typed::formatter::"):
+            continue
+        for n in walk(b["value"]):
+            if n["k"] == "mcall" and n.get("name") == "repeat" and n["recv"]["k"] == "lit" and "str" in (n["recv"].get("v") or {}):
+                lit = n["recv"]["v"]["str"]
+                ws = [m for m in walk(n["args"][0]) if m.get("callee") and "unicode_width::UnicodeWidth" in m["callee"]["path"]]
+                if not ws:
+                    continue
+                fields = [x["name"] for x in walk(ws[0]) if x["k"] == "field" and x["name"] in ("former", "middle", "latter")]
+                want = "former" if lit.strip() == "" else "middle"
+                key = "%s: %r.repeat(width(..))" % (fid.rsplit("::", 1)[-1], lit)
+                if fields == [want]:
+                    rmc.inst(key, c.loc(n.get("sp")), "ok", {"measures": want})
+                else:
+                    rmc.violate(key, "measures %s, expected the `%s` part of the line" % (fields or "something else", want), c.loc(n.get("sp")))
+    rmc.require(5, "repeat sites")
+
     # must-show: every successful return of display_span / display_position has displayed a snippet
     rs = ctx.rule("R14-SHOW", "every normally-completing path of display_span / display_position passes through a display_snippet_* call")
     for nm in ("display_span", "display_position"):
